@@ -92,6 +92,9 @@ RULE = (
     "queries were compared of which >=1 fell under a cut and >=1 had the apex as closest encloser; "
     "distinct by SHA-1 of the descriptor"
 )
+RULE += (
+    " Rounds 8-10 added: Delegations(t=3) with 7-13 sibling cuts (multi-level delegation index); absolute owner names spelling the origin in the other letter case."
+)
 ASSUMPTIONS = [
     "reference model vlib/ref/bzone_model.py imports nothing from dns; canonical order = tuple "
     "order of lower-cased labels, most significant first (RFC 4034 6.1)",
